@@ -15,6 +15,9 @@ type Spec struct {
 	// MayFailToLoad reports load failures that are an upstream condition of the
 	// repository in that configuration rather than a verdict.
 	MayFailToLoad func(core.Config, string) bool
+	// Packages lists the module-relative packages the property is anchored in; type errors
+	// elsewhere in the module (in some configuration) do not prevent the analysis.
+	Packages []string
 }
 
 var Registry = map[string]Spec{}
